@@ -77,8 +77,79 @@ fn dispatch(case: &Case, obs: &mut Obs) -> PropResult {
 	}
 }
 
+// ---------------------------------------------------------------------------------------------
+// "reading never merges, loses or re-parents an entry": a text in which two sections under the same parent
+// have the same key (class source name, member name + descriptor, parameter index) cannot be read without
+// merging or losing one of them, so the reader has to refuse it.
+
+#[derive(Clone, Debug, Serialize, Deserialize)]
+pub struct DupCase {
+	pub m: MapSet,
+	pub order: u64,
+	/// which section is duplicated
+	pub pick: u16,
+	/// 0 exact copy of the section with its children, 1 the section line alone, 2 copy with other target names
+	pub variant: u8,
+	/// false: directly behind the original section, true: behind the last section of the same parent
+	pub at_end: bool,
+}
+
+fn indent_of(l: &str) -> usize {
+	l.bytes().take_while(|b| *b == b'\t').count()
+}
+
+fn duplicates(case: &DupCase, obs: &mut Obs) -> PropResult {
+	let text = text::tiny(&case.m, case.order);
+	let lines: Vec<&str> = text.lines().collect();
+	// section lines: classes (c at indent 0), fields/methods (indent 1), parameters (indent 2); comments are `c` at indent >= 1
+	let sections: Vec<usize> = (1..lines.len())
+		.filter(|i| {
+			let ind = indent_of(lines[*i]);
+			let kind = lines[*i][ind..].split('\t').next().unwrap_or("");
+			matches!((ind, kind), (0, "c") | (1, "f") | (1, "m") | (2, "p"))
+		})
+		.collect();
+	if sections.is_empty() {
+		return Ok(());
+	}
+	let at = sections[crate::engine::idx(case.pick, sections.len())];
+	let ind = indent_of(lines[at]);
+	let block_end = (at + 1..lines.len()).find(|j| indent_of(lines[*j]) <= ind).unwrap_or(lines.len());
+	let parent_end = if ind == 0 { lines.len() } else { (at + 1..lines.len()).find(|j| indent_of(lines[*j]) < ind).unwrap_or(lines.len()) };
+	let mut copy: Vec<String> = match case.variant {
+		1 => vec![lines[at].to_string()],
+		_ => lines[at..block_end].iter().map(|l| l.to_string()).collect(),
+	};
+	if case.variant == 2 {
+		// same key (the cells up to and including the source name), other names in the last column
+		copy[0].push('x');
+	}
+	let insert_at = if case.at_end { parent_end } else { block_end };
+	let mut out: Vec<String> = lines[..insert_at].iter().map(|l| l.to_string()).collect();
+	out.extend(copy);
+	out.extend(lines[insert_at..].iter().map(|l| l.to_string()));
+	let dup_text = out.join("\n") + "\n";
+	let kind = ["class", "member", "parameter"][ind];
+	let n = case.m.n();
+	let result = match n {
+		2 => quill::tiny_v2::read::<2, Ns>(dup_text.as_bytes()).map(|m| from_quill(&m)),
+		3 => quill::tiny_v2::read::<3, Ns>(dup_text.as_bytes()).map(|m| from_quill(&m)),
+		4 => quill::tiny_v2::read::<4, Ns>(dup_text.as_bytes()).map(|m| from_quill(&m)),
+		n => return Err(format!("harness: unsupported namespace count {n}")),
+	};
+	match result {
+		Err(_) => {
+			obs.label(format!("duplicate_{kind}_refused"));
+			obs.label(format!("variant{}{}", case.variant, if case.at_end { ":at_end_of_parent" } else { ":adjacent" }));
+			obs.nontrivial();
+			Ok(())
+		}
+		Ok(_) => Err(format!("a text with two {kind} sections of the same key under one parent (line {}: {:?}) was read instead of refused: one of them was merged or lost\ntext:\n{dup_text}", at + 1, lines[at])),
+	}
+}
+
 pub fn run(ctx: &mut Ctx) {
-	ctx.rule = "mapping sets with 2..4 namespaces built from index draws (nested classes with and without outer class, packages, unicode and placeholder-like names, missing cells, multi-line comments, parameters without source name) x two insertion orders x one line order; non-trivial = >=2 classes, >=1 nested class, >=1 comment and two different insertion orders; distinct by hash of the serialised case".into();
+	ctx.rule = "mapping sets with 2..4 namespaces built from index draws (nested classes with and without outer class, packages, unicode and placeholder-like names, missing cells, multi-line comments, parameters without source name) x two insertion orders x one line order; plus (duplicate_sections_refused) harness-written texts in which one class / member / parameter section is repeated under its parent (whole block, line alone, or with other target names; adjacent or at the end of the parent) and must be refused, because any Ok result merges or loses an entry; non-trivial = >=2 classes, >=1 nested class, >=1 comment and two different insertion orders; distinct by hash of the serialised case".into();
 	ctx.assume("names are valid for their duke newtype, valid UTF-8 and contain no TAB/LF/CR (Tiny v2 without escaped-names cannot express them)");
 	ctx.assume("top-level Mappings.javadoc is None (Tiny v2 has no such line)");
 	let cases = ctx.tier.pick(24000, 2000000);
@@ -90,4 +161,10 @@ pub fn run(ctx: &mut Ctx) {
 		obs.label_if(hostile, "comment_needs_escaping");
 		r
 	});
+	ctx.run_sub(
+		"duplicate_sections_refused",
+		ctx.tier.pick(12000, 600000),
+		|| (mapset(cfg(false)), order_seed(), any::<u16>(), 0u8..3, any::<bool>()).prop_map(|(m, order, pick, variant, at_end)| DupCase { m, order, pick, variant, at_end }),
+		duplicates,
+	);
 }
